@@ -185,6 +185,37 @@ model_event(struct model *model, struct emu *emu, int index)
 	return 0;
 }
 
+static int
+check_payload(struct ev_spec *es, struct emu_ev *ev)
+{
+	if (es->nargs == 0)
+		return 0;
+
+	if (ev->payload == NULL || ev->payload_size < es->payload_size) {
+		err("payload too short: %zu bytes, expected %zu",
+				ev->payload_size, es->payload_size);
+		return -1;
+	}
+
+	const char *payload = (const char *) ev->payload;
+
+	for (int i = 0; i < es->nargs; i++) {
+		struct ev_arg *arg = &es->args[i];
+
+		if (arg->type != STR)
+			continue;
+
+		/* The string must end inside the payload */
+		if (arg->offset >= ev->payload_size
+				|| payload[ev->payload_size - 1] != '\0') {
+			err("string argument %s not terminated", arg->name);
+			return -1;
+		}
+	}
+
+	return 0;
+}
+
 int
 model_event_print(struct model *model, struct emu_ev *ev,
 		char *buf, int buflen)
@@ -200,6 +231,13 @@ model_event_print(struct model *model, struct emu_ev *ev,
 
 	if (es == NULL) {
 		err("cannot find event definition for %s", ev->mcv);
+		return -1;
+	}
+
+	/* The event comes from the trace and may be malformed: ensure all the
+	 * declared arguments are inside its payload before decoding them */
+	if (check_payload(es, ev) != 0) {
+		err("malformed payload in event %s", ev->mcv);
 		return -1;
 	}
 
